@@ -228,11 +228,32 @@ def _py(n):
     raise ParseError(f"Python reader: unsupported node {type(n).__name__}")
 
 
+def _num(text):
+    t = text.rstrip("fFlLuU") if not text.endswith("j") else text
+    try:
+        return complex(int(t, 0)) if re.fullmatch(r"[-+]?\d+", t) else complex(t.replace(" ", ""))
+    except ValueError:
+        try:
+            return complex(float(t))
+        except ValueError:
+            raise ParseError(f"not a number: {text!r}")
+
+
 def canon(t):
-    """Canonical form: fold unary minus over a number into a signed number."""
+    """Canonical form: numeric leaves become complex values and constant subtrees are folded
+    (so `-2.5`, `(0.0+I*2.0)` and `2j` are single numbers); `I` is the imaginary unit."""
     if not isinstance(t, tuple):
         return t
+    if t[0] == "num":
+        return ("num", t[1] if isinstance(t[1], complex) else _num(str(t[1])))
+    if t[0] == "sym" and t[1] in ("I", "_Complex_I"):
+        return ("num", 1j)
     t = tuple(canon(x) if isinstance(x, tuple) else x for x in t)
-    if t[0] == "un" and t[1] == "-" and isinstance(t[2], tuple) and t[2][0] == "num" and not t[2][1].startswith("-"):
-        return ("num", "-" + t[2][1])
+    if t[0] == "un" and t[1] in ("-", "+") and t[2][0] == "num":
+        return ("num", -t[2][1] if t[1] == "-" else t[2][1])
+    if t[0] == "bin" and t[1] in ("+", "-", "*", "/") and t[2][0] == "num" and t[3][0] == "num":
+        a, b = t[2][1], t[3][1]
+        if t[1] == "/" and b == 0:
+            return t
+        return ("num", {"+": a + b, "-": a - b, "*": a * b, "/": a / b if b != 0 else 0}[t[1]])
     return t
